@@ -407,6 +407,28 @@ fn instantiate_battery(r: &mut Runner) {
                 variants.push(m);
             }
         }
+        // checksum-valid strings that do not encode a byte string, in every address field
+        let odd_n = mwsim::bech::odd_strings(&k.native_prefix);
+        let odd_v = mwsim::bech::odd_strings(&format!("{}valoper", k.native_prefix));
+        let odd_p = mwsim::bech::odd_strings(PROTO_PREFIX);
+        for i in 0..odd_n.len() {
+            for (path, val) in [
+                (vec!["native_chain_config", "staker_address"], json!(odd_n[i])),
+                (vec!["native_chain_config", "reward_collector_address"], json!(odd_n[i])),
+                (vec!["native_chain_config", "validators"], json!([odd_v[i]])),
+                (vec!["protocol_chain_config", "oracle_address"], json!(odd_p[i])),
+                (vec!["protocol_fee_config", "treasury_address"], json!(odd_p[i])),
+                (vec!["monitors"], json!([odd_p[i]])),
+            ] {
+                let mut m = base.clone();
+                let mut cur = &mut m;
+                for p in &path[..path.len() - 1] {
+                    cur = &mut cur[*p];
+                }
+                cur[path[path.len() - 1]] = val;
+                variants.push(m);
+            }
+        }
         for v in variants {
             let Ok(msg) = serde_json::from_value::<staking::msg::InstantiateMsg>(v.clone()) else { continue };
             n += 1;
